@@ -551,6 +551,16 @@ func (stmt *Statement) clone() *Statement {
 		copy(newStmt.scopes, stmt.scopes)
 	}
 
+	if len(stmt.attrs) > 0 {
+		newStmt.attrs = make([]interface{}, len(stmt.attrs))
+		copy(newStmt.attrs, stmt.attrs)
+	}
+
+	if len(stmt.assigns) > 0 {
+		newStmt.assigns = make([]interface{}, len(stmt.assigns))
+		copy(newStmt.assigns, stmt.assigns)
+	}
+
 	stmt.Settings.Range(func(k, v interface{}) bool {
 		newStmt.Settings.Store(k, v)
 		return true
